@@ -1,3 +1,195 @@
 import TlsModel.Proto
-/- driver stub for C13: replaced when the model exists -/
-def main : IO Unit := Tls.protoMain (fun _ => none)
+import TlsModel.Resume
+/-
+  Driver for C13 (stateful): one `World` (client session objects, server session objects, caches,
+  sealed tickets, connection log) stepped by the harness' history.
+    reset                              -> ok
+    sha384 s1,s2,...                   -> ok          (CipherSuite.sha384PrfSuites)
+    tick c|s N                         -> ok
+    srv none | srv CAP AGE             -> ok <index>
+    fill SRV id,id,...                 -> ok
+    tamper J hex                       -> ok
+    close K cf sf                      -> ok          (client / server ran _shutdown(False))
+    sess c|s I                         -> resumable flag etc. of a session object
+    hs k=v ...                         -> observation line (see `obsLine`)
+  Lists are comma separated; bytes are hex, `-` = empty; `none` = absent.
+-/
+open Tls Tls.Resume
+
+structure DState where
+  w : World
+  sha384 : List Nat
+
+def kv (toks : List String) (k : String) : Option String :=
+  toks.findSome? fun t =>
+    match t.splitOn "=" with
+    | [a, b] => if a == k then some b else none
+    | _ => none
+
+def natList (s : String) : Option (List Nat) :=
+  if s == "-" then some [] else (s.splitOn ",").mapM (·.toNat?)
+
+def hexList (s : String) : Option (List Bytes) :=
+  if s == "-" then some [] else (s.splitOn ",").mapM ofHex
+
+def boolOf (s : String) : Option Bool :=
+  if s == "1" then some true else if s == "0" then some false else none
+
+def verOf (s : String) : Option Ver :=
+  match s.splitOn "." with
+  | [a, b] => do some ((← a.toNat?), (← b.toNat?))
+  | _ => none
+
+def optNat (s : String) : Option (Option Nat) :=
+  if s == "-" then some none else s.toNat?.map some
+
+def hashOf (s : String) : Option Hash :=
+  if s == "256" then some .sha256 else if s == "384" then some .sha384 else none
+
+/-- `identhex:pskid:256;identhex:pskid:384` -/
+def pskCfgs (s : String) : Option (List PskConfig) :=
+  if s == "-" then some [] else
+  (s.splitOn ";").mapM fun e =>
+    match e.splitOn ":" with
+    | [i, p, h] => do some { identity := (← ofHex i), psk := (← p.toNat?), hash := (← hashOf h) }
+    | _ => none
+
+def editOf (s : String) : Option Edit :=
+  match s.splitOn ":" with
+  | ["dropems"] => some .dropEms
+  | ["addems"] => some .addEms
+  | ["dropetm"] => some .dropEtm
+  | ["addetm"] => some .addEtm
+  | ["setsni", b] => (ofHex b).map .setSni
+  | ["setsuites", l] => (natList l).map .setSuites
+  | ["setsid", b] => (ofHex b).map .setSid
+  | ["setticket", b] => if b == "none" then some (.setTicket none) else (ofHex b).map (fun x => .setTicket (some x))
+  | _ => none
+
+def editsOf (s : String) : Option (List Edit) :=
+  if s == "-" then some [] else (s.splitOn ";").mapM editOf
+
+def parseHs (d : DState) (t : List String) : Option HsArgs := do
+  let srv ← (← kv t "srv").toNat?
+  let hasCache := match d.w.caches[srv]? with | some (some _) => true | _ => false
+  let cs : CliSettings := {
+    maxVersion := (← verOf (← kv t "cmax")), suites := (← natList (← kv t "csuites")),
+    ems := (← boolOf (← kv t "cems")), etm := (← boolOf (← kv t "cetm")),
+    pskConfigs := (← pskCfgs (← kv t "cpsk")), pskModes := (← natList (← kv t "cmodes")) }
+  let st : SrvSettings := {
+    ticketKeys := (← natList (← kv t "keys")), ticketLifetime := (← (← kv t "life").toNat?),
+    ticketCount := (← (← kv t "tcount").toNat?), allowed := (← natList (← kv t "allowed")),
+    hasCache := hasCache, pskConfigs := (← pskCfgs (← kv t "spsk")),
+    pskModes := (← natList (← kv t "smodes")), hasCert := (← boolOf (← kv t "cert")) }
+  some {
+    srv := srv, cs := cs, srp := (← ofHex (← kv t "srp")), sni := (← ofHex (← kv t "sni")),
+    offer := (← optNat (← kv t "offer")), edits := (← editsOf (← kv t "edits")), st := st,
+    ver := (← verOf (← kv t "ver")), sha384 := d.sha384, freshSid := (← ofHex (← kv t "fsid")),
+    nsuite := (← (← kv t "nsuite").toNat?), nems := (← boolOf (← kv t "nems")),
+    netm := (← boolOf (← kv t "netm")), ncid := (← optNat (← kv t "ncid")),
+    newSid := (← ofHex (← kv t "newsid")), nst := (← hexList (← kv t "nst")),
+    negFail := (← boolOf (← kv t "nf")) }
+
+def alertName : Alert → String
+  | .illegal_parameter => "illegal_parameter"
+  | .handshake_failure => "handshake_failure"
+  | .unexpected_message => "unexpected_message"
+
+def endName : EndState → String
+  | .done => "done"
+  | .localAlert a => "local_alert:" ++ alertName a
+  | .remoteAlert a => "remote_alert:" ++ alertName a
+  | .raised => "raised"
+
+def decName : Decision → String
+  | .resume s => s!"resume:{s.secret}"
+  | .external i => s!"ext:{i}"
+  | .full => "full"
+  | .alert a => "alert:" ++ alertName a
+  | .assertionError => "assert"
+
+def b01 (b : Bool) : String := if b then "1" else "0"
+
+def optNatOut : Option Nat → String
+  | some n => toString n
+  | none => "-"
+
+def helloOut (h : Hello) : String :=
+  let tk := match h.ticket with | none => "none" | some t => hexOut t
+  let psk := match h.psk with
+    | none => "none"
+    | some ids => s!"{ids.length}:" ++ (match ids with | id :: _ => hexOut id.identity | [] => "-")
+  s!"sid={hexOut h.sessionId} tkt={tk} psk={psk} sni={hexOut h.serverName} ems={b01 h.ems} etm={b01 h.etm}"
+
+def paramsOut (p : Params) : String :=
+  s!"{p.suite},{b01 p.ems},{b01 p.etm},{hexOut p.serverName},{optNatOut p.clientId}"
+
+def obsLine (o : HsObs) : String :=
+  if o.valueError then "verr" else
+  match o.hello, o.dec, o.out with
+  | some h, some d, some out =>
+    let p := match o.sParams with | some p => paramsOut p | none => "-"
+    s!"{helloOut h} dec={decName d} c={endName out.cState} cr={b01 out.cResumed} s={endName out.sState} sr={b01 out.sResumed} p={p} ss={optNatOut o.sSecret} cs={optNatOut o.cSecret}"
+  | _, _, _ => "verr"
+
+def handle (d : DState) : List String → DState × Option String
+  | ["reset"] => ({ d with w := World.init }, some "ok")
+  | ["sha384", l] =>
+    match natList l with
+    | some l => ({ d with sha384 := l }, some "ok")
+    | none => (d, none)
+  | ["tick", side, n] =>
+    match n.toNat? with
+    | some n =>
+      if side == "c" then ({ d with w := step d.w (.tick true n) }, some "ok")
+      else if side == "s" then ({ d with w := step d.w (.tick false n) }, some "ok")
+      else (d, none)
+    | none => (d, none)
+  | ["srv", "none"] =>
+    ({ d with w := step d.w (.newServer none) }, some s!"ok {d.w.caches.length}")
+  | ["srv", cap, age] =>
+    match cap.toNat?, age.toNat? with
+    | some cap, some age =>
+      ({ d with w := step d.w (.newServer (some (cap, age))) }, some s!"ok {d.w.caches.length}")
+    | _, _ => (d, none)
+  | ["fill", srv, ids] =>
+    match srv.toNat?, hexList ids with
+    | some srv, some ids => ({ d with w := step d.w (.cacheFill srv ids) }, some "ok")
+    | _, _ => (d, none)
+  | ["tamper", j, b] =>
+    match j.toNat?, ofHex b with
+    | some j, some b => ({ d with w := step d.w (.tamper j b) }, some "ok")
+    | _, _ => (d, none)
+  | ["close", k, cf, sf] =>
+    match k.toNat?, boolOf cf, boolOf sf with
+    | some k, some cf, some sf =>
+      ({ d with w := step d.w (.close k ⟨cf, sf⟩) }, some "ok")
+    | _, _, _ => (d, none)
+  | ["sess", side, i] =>
+    match i.toNat? with
+    | some i =>
+      if side == "c" then
+        match d.w.cheap[i]? with
+        | some s => (d, some s!"resumable={b01 s.resumable} sid={hexOut s.sessionID} t10={s.tickets10.length} t13={s.tickets13.length} secret={s.secret}")
+        | none => (d, some "nosuch")
+      else
+        match d.w.sheap[i]? with
+        | some s => (d, some s!"resumable={b01 s.resumable} sid={hexOut s.sessionID} secret={s.secret}")
+        | none => (d, some "nosuch")
+    | none => (d, none)
+  | ["conn", k] =>
+    match k.toNat? with
+    | some k =>
+      match d.w.conns[k]? with
+      | some c => (d, some s!"cobj={optNatOut c.cobj} sobj={optNatOut c.sobj} from={optNatOut c.resumedFrom}")
+      | none => (d, some "nosuch")
+    | none => (d, none)
+  | "hs" :: t =>
+    match parseHs d t with
+    | some a =>
+      let (w', o) := stepHs d.w a
+      ({ d with w := w' }, some (obsLine o))
+    | none => (d, none)
+  | _ => (d, none)
+
+def main : IO Unit := Tls.protoMainS handle { w := World.init, sha384 := [] }
